@@ -135,9 +135,26 @@ Definition noeff (s : st) : option (unit * st) := Some (tt, s).
 Definition default_temp_mode : N := 384.   (* 0600, os.CreateTemp *)
 Definition default_create_mode : N := 420. (* 0644, os.Create of a missing file under umask 022 *)
 
-Definition CreateTempFile (sch : schedule) : st -> res unit :=
-  hook sch HCreateTemp ;;
-  atomic_op sch OMkTemp (fun s => Some (tt, set_temp (Some (mkFile [] default_temp_mode)) s)) ;;
+Definition remove_temp_eff (s : st) : option (unit * st) := Some (tt, set_temp None s).
+
+(* safelyCloseFile; tryRemoveTempFile: both only log their errors *)
+Definition cleanup_temp (sch : schedule) : st -> res unit :=
+  ignore_err (atomic_op sch OCloseTemp noeff) ;;
+  ignore_err (atomic_op sch ORemoveDiscard remove_temp_eff).
+
+(* the deferred function of CreateTempFile (since /repo d27ead5): on an error
+   after the temp file exists it is closed and removed; the error is kept *)
+Definition with_cleanup (sch : schedule) (m : st -> res unit) : st -> res unit :=
+  fun s => match m s with
+           | Err s' => match cleanup_temp sch s' with
+                       | Dead s'' => Dead s''
+                       | Pan s'' => Pan s''
+                       | Ret _ s'' | Err s'' => Err s''
+                       end
+           | r => r
+           end.
+
+Definition prepare_temp (sch : schedule) : st -> res unit :=
   hook sch HStatTarget ;;
   bind (atomic_op sch OStat (fun s => match fs_target (s_fs s) with
                                       | Some f => Some (f_mode f, s) | None => None end))
@@ -149,6 +166,11 @@ Definition CreateTempFile (sch : schedule) : st -> res unit :=
   hook sch HChownTemp ;;
   (* chown_linux.go: a failing chown is logged and ignored; ownership is not modelled *)
   ignore_err (atomic_op sch OChown noeff)).
+
+Definition CreateTempFile (sch : schedule) : st -> res unit :=
+  hook sch HCreateTemp ;;
+  atomic_op sch OMkTemp (fun s => Some (tt, set_temp (Some (mkFile [] default_temp_mode)) s)) ;;
+  with_cleanup sch (prepare_temp sch).
 
 (* ------------------------------------------------------------------ *)
 (* printer.go: PrintResults                                             *)
@@ -188,12 +210,10 @@ Definition op_appendix (sch : schedule) : st -> res unit :=
     (fun n s => let s' := temp_append (firstn n (s_appx s)) s in
                 mkSt (s_fs s') (s_buf s') (skipn n (s_appx s)) (s_trace s')).
 
+(* an empty result list prints nothing but the appendix is still copied (since /repo a2f5710) *)
 Definition print_results (sch : schedule) (fm_process : bool) (cs : list bytes) (k : nat) : st -> res nat :=
-  match cs with
-  | [] => ret k                     (* matchingNodes.Len() == 0: returns before the appendix is copied *)
-  | _ => bind (print_chunks sch cs k)
-           (fun k' => if fm_process then op_appendix sch ;; ret k' else ret k')
-  end.
+  bind (print_chunks sch cs k)
+    (fun k' => if fm_process then op_appendix sch ;; ret k' else ret k').
 
 Fixpoint eval_calls (sch : schedule) (fm_process : bool) (calls : list (list bytes)) (k : nat) : st -> res nat :=
   match calls with
@@ -225,8 +245,6 @@ Definition rename_eff (s : st) : option (unit * st) :=
   | Some f => Some (tt, with_fs (fun _ => mkFs (Some f) None) s)
   | None => None
   end.
-
-Definition remove_temp_eff (s : st) : option (unit * st) := Some (tt, set_temp None s).
 
 Definition tryRenameFile (cross : bool) (sch : schedule) : st -> res unit :=
   hook sch HBeforeRename ;;
@@ -315,10 +333,15 @@ Definition run (cfg : config) (sch : schedule) (pl : plan) (old : file) : outcom
   | Dead s => Killed s
   | Pan s => Exited 2 s
   | Ret _ s =>
-      (* defer func() { if cmdError == nil { cmdError = FinishWriteInPlace(completedSuccessfully) } }() *)
+      (* defer func() { if cmdError == nil { cmdError = FinishWriteInPlace(completedSuccessfully) } else { _ = FinishWriteInPlace(false) } }() *)
       match body cfg sch pl s with
       | Dead s' => Killed s'
-      | Err s' => Exited 1 s'                       (* cmdError != nil: nothing is finished, temp stays *)
+      | Err s' =>
+          (* cmdError != nil: the temp file is discarded, the error is kept (since /repo d27ead5) *)
+          match FinishWriteInPlace (cfg_cross cfg) sch false s' with
+          | Dead s'' => Killed s''
+          | Ret _ s'' | Err s'' | Pan s'' => Exited 1 s''
+          end
       | Ret completed s' =>
           match FinishWriteInPlace (cfg_cross cfg) sch completed s' with
           | Ret _ s'' => Exited 0 s''
@@ -340,7 +363,6 @@ Definition run (cfg : config) (sch : schedule) (pl : plan) (old : file) : outcom
 Fixpoint out_calls (fm_process : bool) (appx : bytes) (calls : list (list bytes)) : bytes :=
   match calls with
   | [] => []
-  | [] :: cs => out_calls fm_process appx cs
   | c :: cs => concat c ++ (if fm_process then appx else []) ++ out_calls fm_process [] cs
   end.
 
